@@ -100,6 +100,10 @@ def entry_variants(ctx, p, rng, want=("path", "padded", "fobj", "override")):
         elif label == "fobj":
             outcome.write_text(path, p.text)
             yield label, p.exp, outcome.load_open_file(p.schema, path)
+        elif label == "fobj-bytes":
+            outcome.write_text(path, p.text)
+            yield label, p.exp, outcome.load_open_file(p.schema, path,
+                                                       bytes_name=True)
         elif label == "override":
             if p.tree is None or not ov.section_children(p.tree):
                 continue
